@@ -100,7 +100,7 @@ CLAIMS = {
    technique="TLA+ proxy model (refinement to a FIFO byte stream) model-checked with TLC; channel-program transcripts on the full transport x execmodel matrix validated by TLC against the popen baseline",
    ref="5/C16"),
  "C06": dict(
-   text="spec/RemoteExec.tla states remote_exec's local front end as a two-phase decision table over the shape of what is passed (string / module / function x lambda, first parameter, closure, non-builtin global, shadowed global, nested, defaults, decorated, kwargs none/serialisable/unserialisable); TLC checks that a rejection never sends a frame and that the table agrees with the statement's list of rejected shapes. TLC enumerates the ~250 shapes; each is synthesised as a real source file / module / string and passed to the real remote_exec on a real popen gateway (thorough: also main_thread_only and via): exception class, nothing sent on rejection, code ran, channel bound, __name__, kwargs equal by value and type. Tracebacks of functions, modules and strings are checked for the original file and line; explicit close from inside is refused (also after the initiator closed first) and the channel stays open until the code ends; stdout/stderr/fd 1/fd 2/subprocess output of 0..5 MB is followed by further traffic. TLC judges every recorded case (spec/RemoteExecCases.tla). The stdio cases (incl. remote code that rebinds sys.stdout / sys.stdin) are repeated on a gevent worker.",
+   text="spec/RemoteExec.tla states remote_exec's local front end as a two-phase decision table over the shape of what is passed (string / module / function x lambda, first parameter, closure, non-builtin global, shadowed global, nested, defaults, decorated, kwargs none/serialisable/unserialisable); TLC checks that a rejection never sends a frame and that the table agrees with the statement's list of rejected shapes. TLC enumerates the ~250 shapes; each is synthesised as a real source file / module / string and passed to the real remote_exec on a real popen gateway (thorough: also main_thread_only and via): exception class, nothing sent on rejection, code ran, channel bound, __name__, kwargs equal by value and type. Tracebacks of functions, modules and strings are checked for the original file and line; explicit close from inside is refused (also after the initiator closed first) and the channel stays open until the code ends; stdout/stderr/fd 1/fd 2/subprocess output of 0..5 MB is followed by further traffic. TLC judges every recorded case (spec/RemoteExecCases.tla). The stdio cases (incl. remote code that rebinds sys.stdout / sys.stdin) are repeated on a gevent worker. spec/FdTable.tla models the worker's descriptor table (init_popen_io, then raw writes / rebinding / open / close by remote code); every operation sequence of the model runs on a fresh real popen worker and TLC compares the observations and the final /proc/self/fd table with the model. The same code executed repeatedly on one gateway must not see state of an earlier execution.",
    note="The purity analysis is not decided for all Python syntax: the table covers the shapes the statement enumerates plus the shadowed-global shape. 'Nothing sent' is observed through channel id allocation.",
    technique="TLA+ decision-table model of remote_exec checked with TLC; TLC-enumerated shapes synthesised and replayed on the real remote_exec over real gateways; recorded outcomes validated by TLC",
    ref="5/C06"),
